@@ -211,7 +211,7 @@ void dary_history(pbt::Source& src, unsigned A, unsigned ck) {
 
 PBT_PROPERTY(dary) {
     unsigned arity = 1 + (unsigned)src.range(0, 7);
-    unsigned ck = (unsigned)src.range(0, 2);
+    unsigned ck = (unsigned)src.weighted({2, 1, 3}); // less, greater, external priority table
     static const char* const AL[] = {"", "arity=1", "arity=2", "arity=3", "arity=4", "arity=5", "arity=6", "arity=7", "arity=8"};
     static const char* const CL[] = {"cmp=less", "cmp=greater", "cmp=table"};
     pbt::label(AL[arity]);
